@@ -42,6 +42,7 @@ def solver_part(tier):
     cfg = berp.build()
     rec, rel = pmodel.q_bisimulation(T["states"], cfg, res)
     pmodel.q_closed(T["states"], res)
+    pmodel.q_lookaheads(T["lookaheads"], res, cfg)
     val = _p.validate_translation(T)
     if val.get("error") or val.get("disagreements", 1) != 0:
         herr.append("translation validation failed: %r" % (val,))
